@@ -97,10 +97,10 @@ impl Serializer {
     ensures
         final(self).is_array_elem == old(self).is_array_elem,
         r is Ok ==> appended(*old(self), *final(self)),
-        r is Ok && old(self).is_array_elem is False && old(self).non_native_type is None ==> var_encoding(0xa1, 0xb1, utf8(v@), added(*old(self), *final(self))),          // [C05.str.encoding] a string is str8-utf8 / str32-utf8: constructor, size = number of UTF-8 OCTETS, then the octets
-        r is Ok && old(self).is_array_elem is False && is_symbol(old(self).non_native_type) ==> var_encoding(0xa3, 0xb3, utf8(v@), added(*old(self), *final(self))),     // [C05.symbol.encoding]
-        r is Ok && !(old(self).is_array_elem is False) && old(self).non_native_type is None ==> var_array_elem(0xb1, old(self).is_array_elem, utf8(v@), added(*old(self), *final(self))),      // [C05.str.array-element] inside an array: one str32 constructor for the array, each element is size (in OCTETS) + octets
-        r is Ok && !(old(self).is_array_elem is False) && is_symbol(old(self).non_native_type) ==> var_array_elem(0xb3, old(self).is_array_elem, utf8(v@), added(*old(self), *final(self))),  // [C05.symbol.array-element]
+        r is Ok && old(self).is_array_elem is False && old(self).non_native_type is None ==> var_encoding(0xa1, 0xb1, utf8(v@), added(*old(self), *final(self))),          // [C05.str.encoding] [C03.rt.encoder-premise] a string is str8-utf8 / str32-utf8: constructor, size = number of UTF-8 OCTETS, then the octets
+        r is Ok && old(self).is_array_elem is False && is_symbol(old(self).non_native_type) ==> var_encoding(0xa3, 0xb3, utf8(v@), added(*old(self), *final(self))),     // [C05.symbol.encoding] [C03.rt.encoder-premise]
+        r is Ok && !(old(self).is_array_elem is False) && old(self).non_native_type is None ==> var_array_elem(0xb1, old(self).is_array_elem, utf8(v@), added(*old(self), *final(self))),      // [C05.str.array-element] [C03.rt.encoder-premise] inside an array: one str32 constructor for the array, each element is size (in OCTETS) + octets
+        r is Ok && !(old(self).is_array_elem is False) && is_symbol(old(self).non_native_type) ==> var_array_elem(0xb3, old(self).is_array_elem, utf8(v@), added(*old(self), *final(self))),  // [C05.symbol.array-element] [C03.rt.encoder-premise]
         r is Ok && old(self).is_array_elem is False ==> final(self).non_native_type is None,                 // [C03.ser.marker-cleared] the one-shot wrapper marker (symbol) does not leak to the next value written by the same serializer
         r is Ok && utf8(v@).len() <= 0xffff_ffff ==> added(*old(self), *final(self)).len() == var_size(old(self).is_array_elem, utf8(v@).len() as int),   // [C20.size.str-written] the number of octets written for a string/symbol, as a function of its octet length and position
 //@@ end
@@ -117,11 +117,11 @@ impl Serializer {
         final(self).is_array_elem == old(self).is_array_elem,
         r is Ok ==> appended(*old(self), *final(self)),
         r is Ok && old(self).non_native_type is None && old(self).is_array_elem is False ==>
-            (-128 <= v <= 127 && added(*old(self), *final(self)) =~= seq![0x55u8, v as u8]) || added(*old(self), *final(self)) =~= seq![0x81u8] + be64(v as u64),   // [C05.long.encoding] long is smalllong (one octet, two's complement) when it fits, or 0x81 + 8 octets big-endian
+            (-128 <= v <= 127 && added(*old(self), *final(self)) =~= seq![0x55u8, v as u8]) || added(*old(self), *final(self)) =~= seq![0x81u8] + be64(v as u64),   // [C05.long.encoding] [C03.rt.encoder-premise] long is smalllong (one octet, two's complement) when it fits, or 0x81 + 8 octets big-endian
         r is Ok && old(self).non_native_type is None && !(old(self).is_array_elem is False) ==>
-            added(*old(self), *final(self)) =~= (if old(self).is_array_elem is FirstElement { seq![0x81u8] } else { Seq::<u8>::empty() }) + be64(v as u64),   // [C05.long.array-element]
+            added(*old(self), *final(self)) =~= (if old(self).is_array_elem is FirstElement { seq![0x81u8] } else { Seq::<u8>::empty() }) + be64(v as u64),   // [C05.long.array-element] [C03.rt.encoder-premise]
         r is Ok && old(self).non_native_type == Some(NonNativeType::Timestamp) ==>
-            added(*old(self), *final(self)) =~= (if old(self).is_array_elem is OtherElement { Seq::<u8>::empty() } else { seq![0x83u8] }) + be64(v as u64),   // [C05.timestamp.encoding] a timestamp is ALWAYS 0x83 + 8 octets (there is no short form)
+            added(*old(self), *final(self)) =~= (if old(self).is_array_elem is OtherElement { Seq::<u8>::empty() } else { seq![0x83u8] }) + be64(v as u64),   // [C05.timestamp.encoding] [C03.rt.encoder-premise] a timestamp is ALWAYS 0x83 + 8 octets (there is no short form)
         r is Ok ==> added(*old(self), *final(self)).len() == i64_size(old(self).non_native_type, old(self).is_array_elem, v),   // [C20.size.i64-written]
 //@@ end
 
@@ -155,8 +155,8 @@ impl Serializer {
     ensures
         final(self).is_array_elem == old(self).is_array_elem,
         r is Ok ==> appended(*old(self), *final(self)),
-        r is Ok && old(self).is_array_elem is False ==> added(*old(self), *final(self)) =~= seq![if v { 0x41u8 } else { 0x42u8 }],                       // [C05.bool.encoding] true / false constructors
-        r is Ok && old(self).is_array_elem is FirstElement ==> added(*old(self), *final(self)) =~= seq![0x56u8, if v { 1u8 } else { 0u8 }],             // [C05.bool.array-element] inside an array: the one-octet form 0x56, constructor once
+        r is Ok && old(self).is_array_elem is False ==> added(*old(self), *final(self)) =~= seq![if v { 0x41u8 } else { 0x42u8 }],                       // [C05.bool.encoding] [C03.rt.encoder-premise] true / false constructors
+        r is Ok && old(self).is_array_elem is FirstElement ==> added(*old(self), *final(self)) =~= seq![0x56u8, if v { 1u8 } else { 0u8 }],             // [C05.bool.array-element] [C03.rt.encoder-premise] inside an array: the one-octet form 0x56, constructor once
         r is Ok && old(self).is_array_elem is OtherElement ==> added(*old(self), *final(self)) =~= seq![if v { 1u8 } else { 0u8 }],
 //@@ end
 
@@ -172,15 +172,15 @@ impl Serializer {
     ensures
         final(self).is_array_elem == old(self).is_array_elem,
         r is Ok ==> appended(*old(self), *final(self)),
-        r is Ok && old(self).is_array_elem is False && old(self).non_native_type is None ==> var_encoding(0xa0, 0xb0, v@, added(*old(self), *final(self))),        // [C05.binary.encoding] binary is vbin8 / vbin32: constructor, size = number of octets, octets
-        r is Ok && !(old(self).is_array_elem is False) && old(self).non_native_type is None ==> var_array_elem(0xb0, old(self).is_array_elem, v@, added(*old(self), *final(self))),   // [C05.binary.array-element]
+        r is Ok && old(self).is_array_elem is False && old(self).non_native_type is None ==> var_encoding(0xa0, 0xb0, v@, added(*old(self), *final(self))),        // [C05.binary.encoding] [C03.rt.encoder-premise] binary is vbin8 / vbin32: constructor, size = number of octets, octets
+        r is Ok && !(old(self).is_array_elem is False) && old(self).non_native_type is None ==> var_array_elem(0xb0, old(self).is_array_elem, v@, added(*old(self), *final(self))),   // [C05.binary.array-element] [C03.rt.encoder-premise]
         r is Ok && (old(self).non_native_type == Some(NonNativeType::Uuid) || old(self).non_native_type == Some(NonNativeType::Dec32) || old(self).non_native_type == Some(NonNativeType::Dec64)
             || old(self).non_native_type == Some(NonNativeType::Dec128) || old(self).non_native_type is None) ==> final(self).non_native_type is None,   // [C03.ser.marker-cleared] uuid / decimal markers are one-shot: the next value (e.g. the value of a map entry whose key was a uuid) is written as itself
         r is Ok && old(self).non_native_type is None && v@.len() <= 0xffff_ffff ==> added(*old(self), *final(self)).len() == var_size(old(self).is_array_elem, v@.len() as int),   // [C20.size.binary-written]
-        r is Ok && old(self).non_native_type == Some(NonNativeType::Uuid) ==> added(*old(self), *final(self)) =~= (if old(self).is_array_elem is OtherElement { Seq::<u8>::empty() } else { seq![0x98u8] }) + v@,      // [C05.uuid.encoding] fixed-width values handed over as bytes: constructor (once per array) + the bytes
-        r is Ok && old(self).non_native_type == Some(NonNativeType::Dec32) ==> added(*old(self), *final(self)) =~= (if old(self).is_array_elem is OtherElement { Seq::<u8>::empty() } else { seq![0x74u8] }) + v@,   // [C05.decimal.encoding]
-        r is Ok && old(self).non_native_type == Some(NonNativeType::Dec64) ==> added(*old(self), *final(self)) =~= (if old(self).is_array_elem is OtherElement { Seq::<u8>::empty() } else { seq![0x84u8] }) + v@,   // [C05.decimal.encoding]
-        r is Ok && old(self).non_native_type == Some(NonNativeType::Dec128) ==> added(*old(self), *final(self)) =~= (if old(self).is_array_elem is OtherElement { Seq::<u8>::empty() } else { seq![0x94u8] }) + v@,  // [C05.decimal.encoding]
+        r is Ok && old(self).non_native_type == Some(NonNativeType::Uuid) ==> added(*old(self), *final(self)) =~= (if old(self).is_array_elem is OtherElement { Seq::<u8>::empty() } else { seq![0x98u8] }) + v@,      // [C05.uuid.encoding] [C03.rt.encoder-premise] fixed-width values handed over as bytes: constructor (once per array) + the bytes
+        r is Ok && old(self).non_native_type == Some(NonNativeType::Dec32) ==> added(*old(self), *final(self)) =~= (if old(self).is_array_elem is OtherElement { Seq::<u8>::empty() } else { seq![0x74u8] }) + v@,   // [C05.decimal.encoding] [C03.rt.encoder-premise]
+        r is Ok && old(self).non_native_type == Some(NonNativeType::Dec64) ==> added(*old(self), *final(self)) =~= (if old(self).is_array_elem is OtherElement { Seq::<u8>::empty() } else { seq![0x84u8] }) + v@,   // [C05.decimal.encoding] [C03.rt.encoder-premise]
+        r is Ok && old(self).non_native_type == Some(NonNativeType::Dec128) ==> added(*old(self), *final(self)) =~= (if old(self).is_array_elem is OtherElement { Seq::<u8>::empty() } else { seq![0x94u8] }) + v@,  // [C05.decimal.encoding] [C03.rt.encoder-premise]
         r is Ok && old(self).non_native_type == Some(NonNativeType::LazyValue) ==> added(*old(self), *final(self)) =~= v@,                                             // [C05.lazy.verbatim] an already encoded value is copied verbatim
 //@@ end
 }
